@@ -11,3 +11,22 @@ import "github.com/thought-machine/please/src/core"
 func VerifC08RuleHash(state *core.BuildState, target *core.BuildTarget, runtime bool) []byte {
 	return ruleHash(state, target, runtime)
 }
+
+// VerifC08NeedsBuilding is the unexported needsBuilding: does the target have to be rebuilt, judging by the record its
+// outputs carry (rule hash, config hash, source hash, secret hash), the metadata file and the presence of the outputs.
+func VerifC08NeedsBuilding(state *core.BuildState, target *core.BuildTarget, postBuild bool) bool {
+	return needsBuilding(state, target, postBuild)
+}
+
+// VerifC08WriteRuleHash is the unexported writeRuleHash: stamp the outputs of the target with the current hashes.
+func VerifC08WriteRuleHash(state *core.BuildState, target *core.BuildTarget) error {
+	return writeRuleHash(state, target)
+}
+
+// VerifC08StoredRuleHash is the rule part of what the unexported readRuleHashFromXattrs finds on the outputs (nil: nothing).
+func VerifC08StoredRuleHash(state *core.BuildState, target *core.BuildTarget, postBuild bool) []byte {
+	return append([]byte{}, readRuleHashFromXattrs(state, target, postBuild).rule...)
+}
+
+// VerifC08XattrName is the name of the extended attribute the record is kept in.
+const VerifC08XattrName = xattrName
